@@ -115,6 +115,10 @@ func (pf *ProofMod) Verify(Session []byte, N *big.Int) bool {
 	if pf == nil || !pf.ValidateBasic() {
 		return false
 	}
+	// N must be positive and odd before anything else looks at it (big.Jacobi panics on even moduli)
+	if N == nil || N.Sign() != 1 || N.Bit(0) == 0 {
+		return false
+	}
 	// TODO: add basic properties checker
 	if isQuadraticResidue(pf.W, N) {
 		return false
